@@ -572,3 +572,8 @@ M("mode4-provisional-false", "C02", LL, "        _can_use_trickery = sys.impleme
 # ---------------------------------------------------------------- SLC-6
 M("slc6-walk-ends-at-dead-greenlet", "C04", GL, "        while greenlet is not None:\n            while current is not None:\n                this_thread_frames.append(current)\n                current = current.f_back\n            greenlet = greenlet.parent\n            if greenlet is not None:\n                current = greenlet.gr_frame\n",
   "        while current is not None:\n            this_thread_frames.append(current)\n            current = current.f_back\n            if current is None and greenlet.parent is not None:\n                greenlet = greenlet.parent\n                current = greenlet.gr_frame\n", "SLC-6")
+
+# ---------------------------------------------------------------- GLOB-1
+_GC_OLD = "    with_block_info = analyze_with_blocks(frame.f_code)\n    frame_details = inspect_frame(frame)\n"
+M("glob1-gc-paused-no-finally", "C06", LL, _GC_OLD, "    with_block_info = analyze_with_blocks(frame.f_code)\n    gc.disable()\n    frame_details = inspect_frame(frame)\n    gc.enable()\n", "GLOB-1")
+T("glob1-twin-gc-paused-finally", "C06", LL, _GC_OLD, "    with_block_info = analyze_with_blocks(frame.f_code)\n    _was = gc.isenabled()\n    gc.disable()\n    try:\n        frame_details = inspect_frame(frame)\n    finally:\n        if _was:\n            gc.enable()\n", accept_analysis_error=True)
